@@ -25,9 +25,28 @@ const (
 	Hour        = time.Hour
 )
 
-func Now() Time                                { return time.Time{} }
-func Since(t Time) Duration                    { return 0 }
-func Until(t Time) Duration                    { return 0 }
+// The model clock: every reading of the clock inside a controlled execution is an environment answer -
+// either no time has passed since the previous reading, or a long time (an hour) has. Code that
+// measures how long something took therefore meets both "instantly" and "far too long" (outside an
+// execution the real clock is used).
+var elapsed time.Duration
+var epoch = time.Unix(1_000_000_000, 0)
+
+// ResetClock is called by the harness-independent reset hook before every execution.
+func init() { vrt.RegisterReset("verif/vtime", -1, func() { elapsed = 0 }) }
+
+//go:norace
+func Now() Time {
+	if !vrt.Running() {
+		return time.Now()
+	}
+	if vrt.Choose(2) == 1 {
+		elapsed += time.Hour
+	}
+	return epoch.Add(elapsed)
+}
+func Since(t Time) Duration { return Now().Sub(t) }
+func Until(t Time) Duration { return t.Sub(Now()) }
 func Unix(s, ns int64) Time                    { return time.Unix(s, ns) }
 func ParseDuration(s string) (Duration, error) { return time.ParseDuration(s) }
 
